@@ -264,6 +264,67 @@ func propSignRaw(t *rapid.T) {
 
 func TestC08_SignRaw(t *testing.T) { rapid.Check(t, propSignRaw) }
 
+// propEphemeralSigner: the signing call is the caller's LAST use of the key
+// object (a temporary, as in `NewPrivateKey(b).SignRaw(...)`), and the entropy
+// source is slow enough for a garbage collection to land inside the call (the
+// reader forces one on every Read).  Anything the library ties to the key
+// object's lifetime -- a finalizer that wipes the scalar, a pooled buffer
+// returned too early -- acts in the middle of the signature here and nowhere
+// else, because a harness that goes on checking the key keeps it alive.
+func propEphemeralSigner(t *rapid.T) {
+	d, dk := privScalar(t)
+	digest, digk := digestBytes(t, 32)
+	rd := gen.Reader(t, 32+gen.Sampled([]int{0, 8, 32}).Draw(t, "extra"), "rng")
+	rd.Collect = true
+	rd.Chunks = []int{20} // two or three reads per call: each one costs a collection
+	api := gen.Sampled([]string{"SignRaw", "Sign", "SignRaw-from-scalar"}).Draw(t, "api")
+	stat.Case("ephemeral", []string{"d:" + dk, "digest:" + digk, "api:" + api}, true, []byte(fmt.Sprintf("%x|%x|%s|%s", d, digest, rd.Desc, api)), func() any {
+		return map[string]any{"d": d.Text(16), "digest": stat.Hex(digest), "entropy": rd.Desc, "api": api}
+	})
+	sign := func(r io.Reader) (*big.Int, *big.Int) {
+		switch api {
+		case "Sign":
+			sig, err := lib.PrivKey(d).Sign(r, digest, &secec.ECDSAOptions{Hash: crypto.SHA256, Encoding: secec.EncodingCompact})
+			if err != nil {
+				t.Fatalf("Sign: %v", err)
+			}
+			ri, si, ok := ref.ParseCompactStrict(sig)
+			if !ok {
+				t.Fatalf("Sign returned a malformed compact signature %x", sig)
+			}
+			return ri, si
+		case "SignRaw-from-scalar":
+			k, err := secec.NewPrivateKeyFromScalar(lib.Sc(d))
+			if err != nil {
+				t.Fatalf("NewPrivateKeyFromScalar: %v", err)
+			}
+			rr, ss, _, err := k.SignRaw(r, digest)
+			if err != nil {
+				t.Fatalf("SignRaw: %v", err)
+			}
+			return lib.ScInt(rr), lib.ScInt(ss)
+		default:
+			rr, ss, _, err := lib.PrivKey(d).SignRaw(r, digest)
+			if err != nil {
+				t.Fatalf("SignRaw: %v", err)
+			}
+			return lib.ScInt(rr), lib.ScInt(ss)
+		}
+	}
+	r1, s1 := sign(rd)
+	if !ref.ECDSAVerify(ref.BaseMul(d), digest, r1, s1) {
+		t.Fatalf("%s on a temporary key object, with collections running during the entropy reads, returned an invalid signature (r=%x s=%x) for d=%x", api, r1, s1, d)
+	}
+	// the same inputs without collections in between give the same signature
+	quiet := rd.Clone()
+	quiet.Collect = false
+	if r2, s2 := sign(quiet); r2.Cmp(r1) != 0 || s2.Cmp(s1) != 0 {
+		t.Fatalf("%s(d=%x) depends on whether a garbage collection ran during the call: (%x,%x) vs (%x,%x)", api, d, r1, s1, r2, s2)
+	}
+}
+
+func TestC08_EphemeralSigner(t *testing.T) { rapid.Check(t, propEphemeralSigner) }
+
 type plainOpts struct{ h crypto.Hash }
 
 func (p plainOpts) HashFunc() crypto.Hash { return p.h }
